@@ -219,9 +219,11 @@ def _rigid(V):
 def _dihedral(V):
     I, st = V.I, V.st
     # "heavy-far-side": the side that must move (beyond atoms[2]) is the LARGER one; "heavy-near-side": the smaller one
-    shape = V.choose(["chain", "heavy-far-side", "heavy-near-side"], "shape")
-    extra = {"chain": (), "heavy-far-side": ((3, 4), (3, 5)), "heavy-near-side": ((0, 4), (0, 5))}[shape]
-    m = M.mk_mol(V, "Molecule", 4 + len(extra), ((0, 1), (1, 2), (2, 3)) + extra)
+    shape = V.choose(["chain", "heavy-far-side", "heavy-near-side", "central-bond-stored-reversed"], "shape")
+    extra = {"chain": (), "heavy-far-side": ((3, 4), (3, 5)), "heavy-near-side": ((0, 4), (0, 5)), "central-bond-stored-reversed": ()}[shape]
+    # the dihedral is given as atoms (0,1,2,3) whatever the orientation in which the bonds happen to be stored
+    core = ((0, 1), (2, 1), (3, 2)) if shape == "central-bond-stored-reversed" else ((0, 1), (1, 2), (2, 3))
+    m = M.mk_mol(V, "Molecule", 4 + len(extra), core + extra)
     before = [list(r) for r in m.fields["_coords"].data]
     target = V.sym("target", "real")
     atoms = tuple(m.fields["_atoms"].items[:4])
@@ -378,3 +380,37 @@ def _align_bookkeeping(V):
         best = [[z3.If(r1 < r0, Z(calls[1][2].data[i][j]), Z(calls[0][2].data[i][j])) for j in range(3)] for i in range(3)]
         V.ensure("post/transformed-by-the-rotation-of-the-best-fit",
                  z3.And(*[Z(after[a][j]) == sum((Z(before[a][k]) - cen[k]) * best[k][j] for k in range(3)) for a in range(3) for j in range(3)]))
+
+
+# ------------------------------------------------------------------------------------------ substructure views follow their atoms
+@P.unit("molli.chem.structure:Substructure.coords", name="a Substructure moves its own atoms, also after the parent's atom list has changed",
+        functions=["molli.chem.structure:Substructure.coords", "molli.chem.structure:Substructure.parent_atom_indices",
+                   "molli.chem.structure:Substructure.yield_parent_atom_indices", f"{M.CLS['CartesianGeometry']}.translate"])
+def _substructure_rows(V):
+    I, st = V.I, V.st
+    m = M.mk_mol(V, "Molecule", 4, ((0, 1), (1, 2), (2, 3)))
+    atoms = list(m.fields["_atoms"].items)
+    before = {id(a): list(r) for a, r in zip(atoms, m.fields["_coords"].data)}
+    v1 = [V.sym(f"v1{k}", "real") for k in range(3)]
+    v2 = [V.sym(f"v2{k}", "real") for k in range(3)]
+    V.witness(lambda ev: {"op": "substructure-after-del", "signature": "substructure-after-del"})
+    V.cover()
+    sub = V.method(m, "substructure", [ListV([atoms[2], atoms[3]])])
+    V.ensure("sub/created", z3.BoolVal(sub.returned))
+    if not sub.returned:
+        return
+    s = sub.value
+    o1 = V.method(s, "translate", [NP.mk(list(v1), "float")], qual=f"{M.CLS['CartesianGeometry']}.translate")
+    d = V.method(m, "del_atom", [atoms[0]])                      # the parent's rows shift by one
+    o2 = V.method(s, "translate", [NP.mk(list(v2), "float")], qual=f"{M.CLS['CartesianGeometry']}.translate")
+    V.ensure("sub/operations-return", z3.BoolVal(o1.returned and d.returned and o2.returned))
+    if not (o1.returned and d.returned and o2.returned):
+        return
+    al = m.fields["_atoms"].items
+    co = m.fields["_coords"].data
+    ok = len(al) == 3 and al[0] is atoms[1] and al[1] is atoms[2] and al[2] is atoms[3] and len(co) == 3
+    V.ensure("sub/parent-keeps-the-other-atoms-in-order", z3.BoolVal(ok))
+    if not ok:
+        return
+    V.ensure("sub/selected-atoms-moved-by-both-translations", z3.And(*[Z(co[r][k]) == Z(before[id(atoms[r + 1])][k]) + Z(v1[k]) + Z(v2[k]) for r in (1, 2) for k in range(3)]))
+    V.ensure("sub/unselected-atom-not-moved", z3.And(*[Z(co[0][k]) == Z(before[id(atoms[1])][k]) for k in range(3)]))
